@@ -8,6 +8,7 @@ package main
 
 import (
 	"bufio"
+	"crypto/sha256"
 	"bytes"
 	"encoding/json"
 	"flag"
@@ -122,7 +123,7 @@ var (
 	fRuns     = flag.Int("runs", 0, "override number of runs")
 	fWorkers  = flag.Int("workers", 0, "worker processes (default: cores)")
 	fReplay   = flag.String("replay", "", "replay file")
-	fSelftest = flag.String("selftest", "", "determinism")
+	fSelftest = flag.String("selftest", "", "determinism | passthrough")
 	fKeep     = flag.Bool("keep", false, "keep the scratch directory")
 	fRepo     = flag.String("repo", "/repo", "repository to simulate")
 	fMode     = flag.String("mode", "", "force a sub-mode of the property")
@@ -278,6 +279,17 @@ func main() {
 	if *fSelftest == "determinism" {
 		os.Exit(selftestDeterminism(pc))
 	}
+	if *fSelftest == "passthrough" {
+		b := doBuild(false)
+		defer b.clean()
+		ok, msg := selftestPassthrough(b, true)
+		fmt.Fprintln(os.Stderr, "passthrough:", msg)
+		if !ok {
+			b.clean()
+			os.Exit(2)
+		}
+		return
+	}
 	os.Exit(check(*fProp, pc, tier))
 }
 
@@ -290,6 +302,28 @@ func check(prop string, pc propConf, tier string) int {
 	defer b.clean()
 	buildS := time.Since(start).Seconds()
 
+	gates := map[string]string{}
+	if tier == "thorough" && os.Getenv("VERIF_SKIP_GATES") == "" {
+		// gates of the thorough tier (DESIGN.md section 6): the instrumenter preserves semantics (pandora's own
+		// suite passes on the instrumented tree, shims in pass-through mode) and equal seeds give equal traces
+		ok, msg := selftestPassthrough(b, false)
+		gates["instrumenter_passthrough_suite"] = msg
+		if !ok {
+			fmt.Fprintln(os.Stderr, "vcheck: gate failed:", msg)
+			return 2
+		}
+		if !pc.Race {
+			n := *fRuns
+			*fRuns = 32
+			rc := selftestDeterminismOn(b, pc)
+			*fRuns = n
+			gates["determinism_32_seeds_x6"] = map[int]string{0: "ok", 2: "FAILED"}[rc]
+			if rc != 0 {
+				return 2
+			}
+		}
+	}
+	gatesGlobal = gates
 	runs := pc.Quick
 	budget := 10 * time.Minute
 	if tier == "thorough" {
@@ -653,6 +687,8 @@ func raceThirdParty(stderr string) map[string]int {
 	return out
 }
 
+var gatesGlobal map[string]string
+
 var beginRe = regexp.MustCompile(`BEGIN property=(\S+) seed=(\d+)`)
 
 // classifyWorkerDeath: a worker that died without a summary. A runtime fatal
@@ -843,6 +879,10 @@ func doReplay(path string) int {
 func selftestDeterminism(pc propConf) int {
 	b := doBuild(pc.Race)
 	defer b.clean()
+	return selftestDeterminismOn(b, pc)
+}
+
+func selftestDeterminismOn(b *build, pc propConf) int {
 	seed := baseSeed()
 	n := 48
 	if *fRuns > 0 {
@@ -989,6 +1029,7 @@ func writeEvidence(prop string, pc propConf, tier string, seed uint64, t Summary
 			"components":                t.Components,
 			"workers":                   workers,
 			"build_s":                   buildS,
+			"gates":                     gatesGlobal,
 		},
 		"assumptions": append([]string{
 			"yield points exist only at pandora's synchronisation operations (channel ops, select, sync.*, atomics, context cancel, time.Sleep, go statements) as inserted by /verif/sim/cmd/instr; interleavings between plain memory accesses are not explored",
@@ -1003,4 +1044,66 @@ func writeEvidence(prop string, pc propConf, tier string, seed uint64, t Summary
 	if err := os.WriteFile(filepath.Join(verifDir, "evidence", prop+".json"), jb, 0o644); err != nil {
 		die(2, "evidence: %v", err)
 	}
+}
+
+// selftestPassthrough runs pandora's own test suite against the instrumented sources (the overlay of this build),
+// where every shim is a pass-through because no simulation is active: evidence that the rewrite preserves
+// semantics. The result is cached per content of the overlay (the suite takes minutes).
+func selftestPassthrough(b *build, force bool) (bool, string) {
+	ov, err := os.ReadFile(filepath.Join(b.dir, "overlay.json"))
+	if err != nil {
+		return false, err.Error()
+	}
+	var m struct{ Replace map[string]string }
+	json.Unmarshal(ov, &m)
+	keys := make([]string, 0, len(m.Replace))
+	for k := range m.Replace {
+		keys = append(keys, k)
+	}
+	sort.Strings(keys)
+	h := sha256.New()
+	for _, k := range keys {
+		data, _ := os.ReadFile(m.Replace[k])
+		h.Write([]byte(k))
+		h.Write(data)
+	}
+	sum := fmt.Sprintf("%x", h.Sum(nil))[:24]
+	cacheDir := filepath.Join(verifDir, ".cache")
+	cacheFile := filepath.Join(cacheDir, "passthrough-"+sum)
+	if !force {
+		if st, err := os.Stat(cacheFile); err == nil && time.Since(st.ModTime()) < 24*time.Hour {
+			data, _ := os.ReadFile(cacheFile)
+			return true, strings.TrimSpace(string(data)) + " (cached)"
+		}
+	}
+	start := time.Now()
+	shell := "go1.26.8 test -overlay " + filepath.Join(b.dir, "overlay.json") + " -vet=off -count=1 -timeout 25m github.com/yandex/pandora/... 2>&1"
+	var cmd *exec.Cmd
+	if _, err := exec.LookPath("unshare"); err == nil {
+		// private network namespace: the acceptance tests listen on fixed ports
+		cmd = exec.Command("unshare", "-rn", "sh", "-c", "ip link set lo up; "+shell)
+	} else {
+		cmd = exec.Command("sh", "-c", shell)
+	}
+	cmd.Dir = filepath.Join(verifDir, "sim")
+	cmd.Env = goEnv()
+	out, _ := cmd.CombinedOutput()
+	okN, failN := 0, 0
+	var failed []string
+	for _, l := range strings.Split(string(out), "\n") {
+		switch {
+		case strings.HasPrefix(l, "ok "):
+			okN++
+		case strings.HasPrefix(l, "FAIL") || strings.HasPrefix(l, "--- FAIL"):
+			failN++
+			failed = append(failed, strings.TrimSpace(l))
+		}
+	}
+	msg := fmt.Sprintf("%d packages ok, %d failures on the instrumented tree in %.0fs", okN, failN, time.Since(start).Seconds())
+	if failN > 0 || okN == 0 {
+		return false, msg + ": " + strings.Join(failed, "; ") + "\n" + cut(string(out), 4000)
+	}
+	os.MkdirAll(cacheDir, 0o755)
+	os.WriteFile(cacheFile, []byte(msg), 0o644)
+	return true, msg
 }
